@@ -135,6 +135,18 @@ func runGateRuleSink(w *World, r *Report, a *locAnchors, rule string, gates []ga
 		}
 		report(f, "root (no rulio caller; reflectively or externally invoked)")
 	}
+	// whose gate: a check asked of one location does not answer for another
+	if a.Location != nil && len(gates) > 0 {
+		sr := rule + "-SUBJECT"
+		r.Rule(sr, "where a call on a location (a parameter or a captured variable of the function) that reaches state ungated by itself lies behind "+gateNames(gates[:1])+" (or a derived wrapper), the check was asked of that same location and not of another one the function has at hand: in the walk over a location's ancestors `loc` is where the walk started and `parent` is what is being read, and every location on the way answers for itself", 0)
+		oks, bad := g.subjectMismatches(a.Location)
+		for _, m := range bad {
+			r.violation(sr, "fn="+fname(m.fn)+" call="+m.call, m.where, "this call lies behind "+m.gate+" only, and that was asked of another location than the one the call is made on: the location that is read never answers for itself")
+		}
+		if len(bad) == 0 {
+			r.ok(sr, "calls="+itoa(oks), "", itoa(oks)+" gated call(s) on a named location, each behind a check asked of that location")
+		}
+	}
 	r.stat(rule+".functions_analysed", g.fnsAnalysed)
 	r.stat(rule+".ungated_sink_sites", g.sitesSeen)
 	r.stat(rule+".gate_tests", g.gateTestsSeen)
@@ -358,7 +370,14 @@ func ruleGateCap(w *World, r *Report) {
 		o := outermost(fn)
 		return o.Signature.Recv() == nil && o.Pkg != nil && o.Pkg.Pkg.Path() == modPath+"/core" && o.Name() == "SetProp"
 	}
-	g := newGateEngine(w, []gateSpec{capGate}, isSink, skip)
+	// what the property bounds is how many facts the location holds: a write under an id that the state has already (the
+	// nil-error edge of State.Get) replaces and does not add.  (Whether the id that was looked up is the id the fact
+	// will be stored under — a property's is made from the fact — is a matter of values and not decided.)
+	existsGate := gateSpec{Name: "State.Get(id) succeeded", FailWhen: "nonnil", Idx: 1, IsGate: func(c *ssa.CallCommon) bool {
+		o := calleeObj(c)
+		return o != nil && o.Name() == "Get" && isIfaceMethodCall(c, a.State, "Get")
+	}}
+	g := newGateEngine(w, []gateSpec{capGate, existsGate}, isSink, skip)
 	// a helper that turns the test into an error (`checkCapacity`) is a gate of its own
 	if wr := g.deriveWrappers(func(fn *ssa.Function) bool { return w.RelPkg(fn) == "core" && !a.inStateLayer(fn) }); len(wr) > 0 {
 		r.Notes = append(r.Notes, "GATE-CAP: gate wrappers: "+strings.Join(wr, ", "))
